@@ -132,6 +132,9 @@ def run(ctx, rep):
             if f.name.startswith("generate_") and "from" in f.name and "name" in f.name:
                 _check_dispatcher(ctx, rep, fo, f)
     rep.stats["eval_sites"] = n_sites
+    rep.rule("Y7", "composite names (a_b_c) are tensored left to right in every description: the accumulated product is the left "
+                   "Kronecker factor and the first argument of the outcome enumeration", floor=5)
+    _y7(ctx, rep)
     # ---- Y4-Y6: constant tables
     from . import c17_tables
     c17_tables.run(ctx, rep)
@@ -286,3 +289,50 @@ def _check_dispatcher(ctx, rep, fo: Folder, f: Func):
                 rep.holds("Y2", f, con, "no fall-through", node=top)
         else:
             rep.holds("Y2", f, con, "final else handles the remaining names", node=top)
+
+
+# ------------------------------------------------------------------------------ Y7
+def _y7(ctx, rep):
+    """composite names a_b_c: the parts are tensored left to right - the accumulated product is the LEFT Kronecker factor and the
+    slow (first) index of the outcome enumeration."""
+    n_sites = 0
+    for m in MODS:
+        mod = ctx.ix.modules[m]
+        for f in mod.funcs.values():
+            for n in own_nodes(f.node):
+                if not (isinstance(n, ast.Assign) and len(n.targets) == 1 and isinstance(n.targets[0], ast.Name)):
+                    continue
+                acc = n.targets[0].id
+                v = n.value
+                # (a) acc = [np.kron(x, y) for x, y in product(A, B)]
+                if isinstance(v, ast.ListComp) and len(v.generators) == 1 and isinstance(v.elt, ast.Call) and (dotted(v.elt.func) or "").endswith("kron") \
+                        and len(v.elt.args) == 2:
+                    g = v.generators[0]
+                    if isinstance(g.iter, ast.Call) and (dotted(g.iter.func) or "").split(".")[-1] == "product" and len(g.iter.args) == 2 \
+                            and isinstance(g.target, ast.Tuple) and len(g.target.elts) == 2 and all(isinstance(x, ast.Name) for x in g.target.elts):
+                        srcs = [unparse(a) for a in g.iter.args]
+                        if acc not in srcs:
+                            continue
+                        n_sites += 1
+                        pos = srcs.index(acc)
+                        var = g.target.elts[pos].id
+                        kargs = [unparse(a) for a in v.elt.args]
+                        con = "%s: %s" % (f.name, unparse(v)[:90])
+                        if var not in kargs:
+                            rep.undecided("Y7", f, con, "kron operands %s are not the comprehension variables" % kargs)
+                        elif kargs.index(var) != 0:
+                            rep.violation("Y7", f, con, "the accumulated product `%s` enters as the RIGHT Kronecker factor: the name a_b is generated as b (x) a "
+                                          "(its pure-state-vector / Kraus siblings and the legacy constructors tensor left to right)" % acc, node=n)
+                        elif pos != 0:
+                            rep.violation("Y7", f, con, "the accumulated list is the second argument of product(): the later part becomes the slow outcome index",
+                                          node=n)
+                        else:
+                            rep.holds("Y7", f, con, "accumulated product on the left, slow index first", node=n)
+                # (b) acc = np.kron(acc, v) in a loop
+                elif isinstance(v, ast.Call) and (dotted(v.func) or "").endswith("kron") and len(v.args) == 2 and acc in [unparse(a) for a in v.args] \
+                        and any(isinstance(p, (ast.For, ast.While)) for p in parents(n)):
+                    n_sites += 1
+                    con = "%s: %s" % (f.name, unparse(n))
+                    rep.check(unparse(v.args[0]) == acc, "Y7", f, con, "accumulated product on the left",
+                              "the accumulated product `%s` is the RIGHT Kronecker factor: the name a_b is generated as b (x) a" % acc, node=n)
+    rep.stats["Y7_sites"] = n_sites
